@@ -989,6 +989,118 @@ func genIterHistory(c *genCtx, ks *keySpace, fill int) {
 	c.g.Emit("mshape")
 }
 
+// a treap deeper than the 128-entry static part of the parent stack (a chain: key order =
+// priority order), so that iterators, Put rotations and immutable path copies work through the
+// overflow slice of parentStack
+func genDeepHistory(c *genCtx) {
+	r := c.r
+	c.reset()
+	n := 131 + r.Intn(24)
+	left := r.Bool()
+	const base = 9223372036854770000 // above (almost) every drawn priority: a later Put rotates to the top
+	key := func(i int) string { return fmt.Sprintf("%04x", 16+4*i) }
+	var toks []string
+	for i := 0; i < n; i++ {
+		k := i
+		if left {
+			k = n - 1 - i
+		}
+		toks = append(toks, fmt.Sprintf("%s:%02x:%d", key(k), i&0xff, base+i))
+		if !left {
+			toks = append(toks, ".")
+		}
+	}
+	toks = append(toks, ".")
+	if left {
+		for i := 0; i < n; i++ {
+			toks = append(toks, ".")
+		}
+	}
+	shape := strings.Join(toks, ",")
+	deep := n - 1 // index (in key order) of the deepest node
+	if left {
+		deep = 0
+	}
+	c.g.Emit("mbuild %s", shape)
+	c.nIters, c.mutIters = 0, nil
+	c.g.Emit("mlen")
+	c.g.Emit("msize")
+	c.g.Emit("it new m nil nil")
+	id := c.nIters
+	c.nIters++
+	c.mutIters = append(c.mutIters, id)
+	sweep := func() {
+		c.g.Emit("it %d last", id)
+		for i := 0; i < n+3; i++ {
+			c.g.Emit("it %d prev", id)
+		}
+		c.g.Emit("it %d first", id)
+		for i := 0; i < n+3; i++ {
+			c.g.Emit("it %d next", id)
+		}
+		for _, k := range []int{deep, n / 2, 1 + r.Intn(n-2)} {
+			c.g.Emit("it %d seek %s", id, key(k))
+			for i := 0; i < 3; i++ {
+				if r.Bool() {
+					c.g.Emit("it %d prev", id)
+				} else {
+					c.g.Emit("it %d next", id)
+				}
+			}
+		}
+	}
+	sweep()
+	// a new key below the deepest node whose drawn priority lifts it through the whole chain
+	nk := fmt.Sprintf("%04x", 16+4*deep+1)
+	if left {
+		nk = "0001"
+	}
+	s1, p1 := c.nextSeed()
+	c.g.Emit("mput %s %s %d %d", nk, genVal(r), s1, p1)
+	c.g.Emit("it reseekall")
+	c.g.Emit("mshape")
+	c.g.Emit("msize")
+	sweep()
+	c.g.Emit("mdel %s", key(deep))
+	c.g.Emit("it reseekall")
+	c.g.Emit("mdel %s", key(n/2))
+	c.g.Emit("it reseekall")
+	c.g.Emit("mshape")
+	c.g.Emit("mlist 1000000")
+	// the same chain as a persistent treap: path copies of 130+ nodes
+	// (version numbers come from the implementation's answers: a panicking op adds none)
+	num := func(out string) (int, bool) {
+		n, err := strconv.Atoi(out)
+		return n, err == nil
+	}
+	v, ok := num(c.g.Emit("ibuild %s", shape))
+	if !ok {
+		return
+	}
+	c.nVers = v + 1
+	last := v
+	for _, k := range []int{deep, n - 1 - deep, n / 2} {
+		w, ok := num(c.g.Emit("idel %d %s", v, key(k)))
+		if !ok {
+			return
+		}
+		c.nVers, last = w+1, w
+		c.g.Emit("ishape %d", w)
+	}
+	s2, p2 := c.nextSeed()
+	w, ok := num(c.g.Emit("iput %d %s %s %d %d", v, nk, genVal(r), s2, p2))
+	if !ok {
+		return
+	}
+	c.nVers, last = w+1, w
+	c.g.Emit("ishape %d", last)
+	c.g.Emit("ilist %d 1000000", last)
+	c.g.Emit("it new %d nil nil", last)
+	id = c.nIters
+	c.nIters++
+	sweep()
+}
+
 func gen(g *hx.Gen) {
 	c := &genCtx{g: g, r: g.R}
 	r := g.R
@@ -1000,6 +1112,9 @@ func gen(g *hx.Gen) {
 	}
 	for h := 0; h < g.N(30, 300); h++ {
 		genIterHistory(c, smallSpace(r), 4+r.Intn(12))
+	}
+	for h := 0; h < g.N(2, 12); h++ {
+		genDeepHistory(c)
 	}
 	// large key spaces: observables only, shapes at the end
 	for h := 0; h < g.N(3, 12); h++ {
